@@ -16,7 +16,9 @@ def decline(pid, reason):
 NOTE = ("Trusted base: go/types + go/ssa (x/tools v0.29.0), the repo-specific call graph (cross-checked against VTA in the "
         "thorough tier), tabled facts about sync/context/dependency APIs, the exception tables in the checker. "
         "A green check means every listed structural obligation holds on every path of the current source; it does not mean "
-        "the behavioural property holds as a whole.")
+        "the behavioural property holds as a whole. The rule list in the level text names the rules of the first build; the rules "
+        "added after the red-team rounds (and those shared between properties) are explained one by one in the evidence file's "
+        "coverage.explanation and in DESIGN.md sections 4 and 7.2.")
 
 claim("C01", "lockset + dominance + must-pass-through rules over SSA and a repo call graph",
       "Decides the deadlock-freedom / single-hand-over disciplines termination depends on (C01.R1-R8, DESIGN §2 C01): guarded single send of the output under the run lock, "
